@@ -8,7 +8,7 @@ Import ListNotations.
 Local Open Scope string_scope. Local Open Scope list_scope.
 
 (* the checker accepts only crates satisfying the declarative predicate [wf_crate] (Crate/Spec.v): every element
-   of @graph has a string @id; @ids are unique; every non-web reference resolves; every File entity records a sha1
+   of @graph has a string @id; @ids are unique; every non-web reference resolves; archive member names are unique; every File entity records a sha1
    and is in the archive with the recorded checksum/size; every run value is represented; the actions of a step are the records
    of its jobs (what each consumed and produced) *)
 Theorem C34_checker_sound : forall g ar vs ss, crate_ok g ar vs ss = true -> wf_crate g ar vs ss.
@@ -157,6 +157,26 @@ Example C34_mini_directory_list :
     [ SV "wf.cwl#s1" [Job [VList [IDir [("f2", 2%N)]; IDir [("f2", 2%N)]]] false None] ] = false /\
   item_ok mini mini_ar (ref "dd") (IDir [("f2", 2%N)]) = true /\ item_ok mini mini_ar (ref "dd") (IDir [("f2", 3%N)]) = false /\
   item_ok mini mini_ar (ref "f1") (IDir []) = false.
+Proof. vm_compute. repeat split; reflexivity. Qed.
+
+(* a member name occurring twice in the archive (the directory written once per path) is rejected *)
+Example C34_mini_duplicate_member_rejected : crate_ok mini (("dd/", "-", 0%N) :: mini_ar) mini_vs mini_ss = false.
+Proof. vm_compute. reflexivity. Qed.
+(* records (fields carried by the elements of the value array) and Files with secondaryFiles (a Collection) *)
+Definition rc : graph :=
+  [ JObj [("@id", JStr "#r"); ("@type", JStr "PropertyValue");
+          ("value", JArr [JObj [("@id", JStr "f1"); ("@type", JStr "File")]; JObj [("@id", JStr "#rs"); ("@type", JStr "PropertyValue")]])];
+    JObj [("@id", JStr "#rs"); ("@type", JStr "PropertyValue"); ("value", JStr "0")];
+    JObj [("@id", JStr "f1"); ("@type", JStr "File"); ("sha1", JStr "f1")];
+    JObj [("@id", JStr "g2"); ("@type", JStr "File"); ("sha1", JStr "g2")];
+    JObj [("@id", JStr "#c"); ("@type", JStr "Collection"); ("mainEntity", ref "f1"); ("hasPart", JArr [ref "f1"; ref "g2"])] ].
+Example C34_record_and_collection :
+  carries rc mini_ar "#r" (VRecord [IFile "f1" 6; ILit ["0"]]) = true /\
+  carries rc mini_ar "#r" (VRecord [IFile "f1" 6]) = false /\
+  carries rc mini_ar "#r" (VRecord [IFile "f1" 6; ILit ["0"]; ILit ["x"]]) = false /\
+  carries rc mini_ar "#c" (VColl "f1" 6 [("g2", 3%N)]) = true /\
+  carries rc mini_ar "#c" (VColl "g2" 3 [("g2", 3%N)]) = false /\
+  carries rc mini_ar "#c" (VColl "f1" 6 [("dd/sub/f2", 2%N)]) = false.
 Proof. vm_compute. repeat split; reflexivity. Qed.
 
 Print Assumptions C34_checker_sound.
